@@ -407,7 +407,7 @@ class CallMixin:
                 return zbool(True)
             try:
                 b = self.truthy(st, self.ev_spec(st, A[1]))
-            except PyRaise:
+            except (PyRaise, OutsideSubset):
                 b = st.fresh("unspecified", Bool)   # partial operation in the consequent: unspecified where it is undefined
             return zbool(z3.Implies(a, b))
         if name == "iff":
